@@ -83,7 +83,11 @@ def first_diff(m, r, names):
 
 def usable_toks(H, st0):
     w = H.w
-    return ['USE', str(w.arr.nd)] + ['1' if w.inodes_usable(st0, d) else '0' for d in w.arr.disks]
+    toks = ['UU', str(w.arr.nd)]
+    for d in w.arr.disks:
+        r, c = w.uuid_ids(st0, d)
+        toks += [str(r), str(c)]
+    return toks
 
 
 def predict_scan(H, st0, lst, clear_past=False):
